@@ -174,6 +174,11 @@ type rowsType []interface{}
 
 type ptrKey struct{ N int }
 
+type tagKey struct {
+	N   int
+	Tag interface{}
+}
+
 // embHolder embeds Base (attrhist.go) by pointer
 type embHolder struct {
 	*Base
@@ -853,6 +858,24 @@ func shapeOfKind(kind string) interface{} {
 		var x interface{}
 		x = &x
 		return x
+	case "structslice": // comparable by type, not by value: an interface field that holds a slice
+		return tagKey{N: 1, Tag: []int{1, 2}}
+	case "arrslice":
+		return [2]interface{}{1, []interface{}{2}}
+	case "structmapv":
+		return tagKey{N: 2, Tag: map[string]int{"a": 1}}
+	case "structkeymap": // a map keyed by a struct type with an interface field
+		return map[tagKey]string{{N: 1, Tag: "t"}: "a", {N: 2, Tag: 5}: "b"}
+	case "intstrmap":
+		return map[int]string{1: "a", 2: "b"}
+	case "floatboolmap":
+		return map[float64]bool{1.5: true, 2: false}
+	case "intnilmap": // interface-typed values, one of them nil
+		return map[int]interface{}{3: nil, 1: "z"}
+	case "floaterrmap":
+		return map[float64]error{2.5: nil, 1.5: errors.New("e")}
+	case "intifacemap":
+		return map[int]interface{}{1: 2, 4: "four"}
 	case "ptrself": // a defined pointer type that points at itself (no interface in between)
 		var q selfPtr
 		q = &q
